@@ -58,7 +58,11 @@ type caseLog struct {
 	Signals [][3]int64 `json:"signals,omitempty"` // [pre, post, idx]
 	ResetEv [][2]int64 `json:"resets,omitempty"`  // [pre, post]
 	// [target, pre, post, immediate, wakeStamp(0: never seen closed while waiting), unsubscribed, closedAtEnd, goroutine]
-	Subs  [][8]int64 `json:"subs,omitempty"`
+	Subs [][8]int64 `json:"subs,omitempty"`
+	// [target, highest index whose Signal call had returned, subscribe pre, subscribe post]:
+	// Subscribe returned an open channel although a Signal(>= target) had already
+	// returned when the channel was looked at (cases without Reset only)
+	Lost  [][4]int64 `json:"lost_wakeups,omitempty"`
 	Panic string     `json:"panic,omitempty"`
 	Skip  string     `json:"skip,omitempty"`
 	Wall  int64      `json:"wall_us"`
@@ -612,7 +616,9 @@ func runRT(s caseSpec) caseLog {
 	lg := caseLog{No: s.No, Kind: s.Kind, N: map[string]int64{}}
 	rt := vexport.NewReadyTargetUint64()
 	var clk, progress atomic.Int64
-	var cur atomic.Uint64 // highest index handed to a signaler so far
+	var cur atomic.Uint64     // highest index handed to a signaler so far
+	var doneSig atomic.Uint64 // highest index whose Signal call has returned
+	var lostMu sync.Mutex
 	sigs := make([][][3]int64, s.Signalers)
 	subs := make([][][8]int64, s.G)
 	chans := make([][]<-chan struct{}, s.G)
@@ -644,6 +650,12 @@ func runRT(s caseSpec) caseLog {
 				}
 				pre := clk.Add(1)
 				rt.Signal(idx)
+				for {
+					d := doneSig.Load()
+					if idx <= d || doneSig.CompareAndSwap(d, idx) {
+						break
+					}
+				}
 				post := clk.Add(1)
 				ev = append(ev, [3]int64{pre, post, int64(idx)})
 				progress.Add(1)
@@ -702,6 +714,17 @@ func runRT(s caseSpec) caseLog {
 				ch := rt.Subscribe(uint64(t))
 				post := clk.Add(1)
 				rec := [8]int64{t, pre, post, 0, 0, 0, 0, int64(i)}
+				// Both calls have returned: Subscribe(t) just now, and Signal(d) before
+				// doneSig was read. Whichever took effect first, the channel is closed by
+				// now (Subscribe saw the target reached, or Signal found the waiter).
+				if d := doneSig.Load(); s.Resets == 0 && t > 0 && d >= uint64(t) && !chClosed(ch) {
+					lostMu.Lock()
+					if len(lg.Lost) < 8 {
+						lg.Lost = append(lg.Lost, [4]int64{t, int64(d), pre, post})
+					}
+					lg.N["lost_wakeup_observed"]++
+					lostMu.Unlock()
+				}
 				if chClosed(ch) {
 					rec[3] = 1
 					rec[4] = clk.Add(1)
